@@ -89,9 +89,25 @@ SPECS = [
              " and local('__slot_s') is ext_result(0) and ext_callee(1) is ext_result(0) "
              " and is_stream(ext_arg(1, 0)) and is_scope_copy(ext_arg(1, 1)) and is_rcontext(ext_arg(1, 2)) "
              " and S() == S0() + '<m>' + out(1) + ext_out(1) + '</m>')",
+             # ... and with NOTHING else: the filler keeps the i18n settings (domain, context, target
+             # language) of the place it was written at, the macro's are not handed in (C10)
+             "local('__slot_s') is None or (ext_nargs(1) == 3 and ext_nargs(1, 'kw') == 0)",
          ],
          raises={'*': {'ensures': ["raised('h1') or raised('h2') or (ext_count() == 2 and ext_raised(1))"]}},
-         serves=['C09'], no_fresh=True),
+         serves=['C09', 'C10'], no_fresh=True),
+    dict(id='S-UseExternal-two-fills',
+         # every filler of the element is discarded after the call, not only the last one
+         text='A<u metal:use-macro="e1"><f metal:fill-slot="s">%s</f><g metal:fill-slot="t">x</g></u>B' % H1,
+         own_names=['macroname', '__slot_s', '__slot_t'],
+         ensures=[
+             "evals(1) == 1", "ext_count() == 1",
+             "scope_arg_visible(ext_arg(0, 1), '__slot_s') is not UNBOUND()",
+             "scope_arg_visible(ext_arg(0, 1), '__slot_t') is not UNBOUND()",
+             "in_globals('__slot_s') or not in_local('__slot_s')",
+             "in_globals('__slot_t') or not in_local('__slot_t')",
+         ],
+         raises={'*': {'ensures': ["raised('e1') or ext_raised(0)"]}},
+         serves=['C09', 'C05'], no_fresh=True),
     dict(id='S-MacroBody-slot-define', fname='render_m',
          # the statements of a define-slot element belong to its DEFAULT content: when the caller fills
          # the slot the element is replaced as a whole -- its tal:define is not evaluated and the filler
